@@ -220,7 +220,24 @@ fn cmd_batch(args: &Args) -> i32 {
         c.set(k, J::u(*v));
     }
     j.set("counters", c);
-    j.set("samples", J::Arr(r.samples.iter().map(|s| J::s(s)).collect()));
+    // one actual case written out: the first lines of the transcript of the first run of this batch
+    let sample_run = run_search(&e, tier, seed, cfg.start, true);
+    let mut samples: Vec<J> = Vec::new();
+    {
+        let mut o = J::obj();
+        o.set("run_index", J::u(cfg.start));
+        o.set("summary", J::s(&sample_run.out.summary));
+        o.set("decision_tape_length", J::u(sample_run.tape.len() as u64));
+        o.set("decision_tape_head", J::Arr(sample_run.tape.iter().take(24).map(|&x| J::u(x)).collect()));
+        o.set("events", J::u(sample_run.out.events));
+        o.set("transcript_head", J::Arr(sample_run.out.log.iter().take(14).map(|l| J::s(&l.chars().take(220).collect::<String>())).collect()));
+        o.set("transcript_digest", J::s(&digest_hex(sample_run.out.digest())));
+        samples.push(o);
+    }
+    for s in r.samples.iter() {
+        samples.push(J::s(s));
+    }
+    j.set("samples", J::Arr(samples));
     j.set("found", J::Arr(found_json));
     if let Some(p) = args.get("--out") {
         if let Err(err) = std::fs::write(p, j.to_string() + "\n") {
